@@ -7,7 +7,10 @@ import (
 	"fmt"
 	"go/token"
 	"go/types"
+	"html"
 	"math"
+	"net/url"
+	"path"
 	"path/filepath"
 	"reflect"
 	"regexp"
@@ -15,6 +18,7 @@ import (
 	"strconv"
 	"strings"
 	"unicode"
+	"unicode/utf8"
 
 	"golang.org/x/tools/go/ssa"
 )
@@ -830,6 +834,12 @@ func (ex *Exec) sprintf(format Str, va Val) (Str, int) {
 	if sl, ok := va.(Slice); ok {
 		argv = sl.elems()
 	}
+	// flags, widths and verbs the model does not implement: format natively when every operand is concrete
+	if fancyFormat(f) {
+		if nat, ok := nativeOperands(argv); ok {
+			return cstr(fmt.Sprintf(f, nat...)), -1
+		}
+	}
 	var out []Int
 	ai, wIdx := 0, -1
 	for i := 0; i < len(f); i++ {
@@ -879,6 +889,69 @@ func (ex *Exec) sprintf(format Str, va Val) (Str, int) {
 		out = append(out, ex.opaque()) // %!(EXTRA ...)
 	}
 	return Str{B: out}, wIdx
+}
+
+func fancyFormat(f string) bool {
+	for i := 0; i+1 < len(f); i++ {
+		if f[i] != '%' {
+			continue
+		}
+		i++
+		switch f[i] {
+		case 'v', 's', 'd', 'q', 'T', 'w', 't', '%':
+		case '+':
+			if i+1 < len(f) && f[i+1] == 'v' {
+				i++
+				continue
+			}
+			return true
+		default:
+			return true
+		}
+	}
+	return false
+}
+
+func nativeOperands(argv []Val) ([]interface{}, bool) {
+	out := make([]interface{}, len(argv))
+	for i, a := range argv {
+		if ifc, ok := a.(Iface); ok {
+			if _, isB := ifc.T.Underlying().(*types.Basic); !isB {
+				return nil, false
+			}
+			a = ifc.V
+		}
+		switch x := a.(type) {
+		case Int:
+			if x.T != nil || x.W >= wDec {
+				return nil, false
+			}
+			if x.S {
+				out[i] = int(x.signed())
+			} else {
+				out[i] = uint(x.C)
+			}
+		case Str:
+			s, ok := x.conc()
+			if !ok {
+				return nil, false
+			}
+			out[i] = s
+		case Bool:
+			if x.T != nil {
+				return nil, false
+			}
+			out[i] = x.C
+		case Float:
+			if x.U {
+				return nil, false
+			}
+			out[i] = x.V
+		default:
+			return nil, false
+		}
+	}
+	return out, true
 }
 
 func (ex *Exec) sprintArgs(va Val, spaces bool) Str {
@@ -1472,44 +1545,85 @@ func mRegexpMatchString(ex *Exec, args []Val) Val {
 // ---------------------------------------------------------------- native fallbacks (all arguments concrete)
 
 var nativeFns = map[string]interface{}{
-	"strings.ToUpper":      strings.ToUpper,
-	"strings.ToLower":      strings.ToLower,
-	"strings.Title":        strings.Title,
-	"strings.Repeat":       strings.Repeat,
-	"strings.Fields":       strings.Fields,
-	"strings.TrimLeft":     strings.TrimLeft,
-	"strings.Trim":         strings.Trim,
-	"strings.TrimPrefix":   strings.TrimPrefix,
-	"strings.TrimSuffix":   strings.TrimSuffix,
-	"strings.LastIndex":    strings.LastIndex,
-	"strings.Count":        strings.Count,
-	"strings.EqualFold":    strings.EqualFold,
-	"strings.SplitN":       strings.SplitN,
-	"strings.ContainsAny":  strings.ContainsAny,
-	"strings.ContainsRune": strings.ContainsRune,
-	"strings.IndexRune":    strings.IndexRune,
-	"strings.IndexAny":     strings.IndexAny,
-	"strconv.Quote":        strconv.Quote,
-	"strconv.FormatInt":    strconv.FormatInt,
-	"strconv.FormatBool":   strconv.FormatBool,
-	"strconv.FormatFloat":  strconv.FormatFloat,
-	"strconv.FormatUint":   strconv.FormatUint,
-	"math.Abs":             math.Abs,
-	"math.Floor":           math.Floor,
-	"path/filepath.Ext":    filepath.Ext,
-	"path/filepath.Base":   filepath.Base,
-	"unicode.IsPrint":      unicode.IsPrint,
-	"unicode.IsSpace":      unicode.IsSpace,
-	"unicode.IsUpper":      unicode.IsUpper,
-	"unicode.IsLetter":     unicode.IsLetter,
-	"unicode.IsDigit":      unicode.IsDigit,
-	"unicode.ToUpper":      unicode.ToUpper,
-	"unicode.ToLower":      unicode.ToLower,
+	"strings.ToUpper":        strings.ToUpper,
+	"strings.ToLower":        strings.ToLower,
+	"strings.Title":          strings.Title,
+	"strings.Repeat":         strings.Repeat,
+	"strings.Fields":         strings.Fields,
+	"strings.TrimLeft":       strings.TrimLeft,
+	"strings.Trim":           strings.Trim,
+	"strings.TrimPrefix":     strings.TrimPrefix,
+	"strings.TrimSuffix":     strings.TrimSuffix,
+	"strings.LastIndex":      strings.LastIndex,
+	"strings.Count":          strings.Count,
+	"strings.EqualFold":      strings.EqualFold,
+	"strings.SplitN":         strings.SplitN,
+	"strings.ContainsAny":    strings.ContainsAny,
+	"strings.ContainsRune":   strings.ContainsRune,
+	"strings.IndexRune":      strings.IndexRune,
+	"strings.IndexAny":       strings.IndexAny,
+	"strconv.Quote":          strconv.Quote,
+	"strconv.FormatInt":      strconv.FormatInt,
+	"strconv.FormatBool":     strconv.FormatBool,
+	"strconv.FormatFloat":    strconv.FormatFloat,
+	"strconv.QuoteToASCII":   strconv.QuoteToASCII,
+	"strconv.Unquote":        strconv.Unquote,
+	"strconv.ParseInt":       strconv.ParseInt,
+	"strconv.ParseBool":      strconv.ParseBool,
+	"strings.TrimFunc":       nil,
+	"strings.ToTitle":        strings.ToTitle,
+	"strings.HasPrefix":      strings.HasPrefix,
+	"strings.Compare":        strings.Compare,
+	"strings.LastIndexByte":  strings.LastIndexByte,
+	"strings.SplitAfter":     strings.SplitAfter,
+	"strings.Cut":            strings.Cut,
+	"strings.CutPrefix":      strings.CutPrefix,
+	"strings.CutSuffix":      strings.CutSuffix,
+	"strings.ToValidUTF8":    strings.ToValidUTF8,
+	"strings.Clone":          strings.Clone,
+	"html.UnescapeString":    html.UnescapeString,
+	"net/url.QueryEscape":    url.QueryEscape,
+	"net/url.PathEscape":     url.PathEscape,
+	"path.Base":              path.Base,
+	"path.Ext":               path.Ext,
+	"path.Clean":             path.Clean,
+	"path/filepath.Clean":    filepath.Clean,
+	"path/filepath.Dir":      filepath.Dir,
+	"unicode.IsControl":      unicode.IsControl,
+	"unicode.IsPunct":        unicode.IsPunct,
+	"unicode.IsLower":        unicode.IsLower,
+	"unicode.IsNumber":       unicode.IsNumber,
+	"unicode.IsMark":         unicode.IsMark,
+	"unicode.IsGraphic":      unicode.IsGraphic,
+	"unicode.IsSymbol":       unicode.IsSymbol,
+	"unicode.ToTitle":        unicode.ToTitle,
+	"unicode/utf8.RuneLen":   utf8.RuneLen,
+	"unicode/utf8.ValidRune": utf8.ValidRune,
+	"math.Ceil":              math.Ceil,
+	"math.Trunc":             math.Trunc,
+	"math.Round":             math.Round,
+	"math.Max":               math.Max,
+	"math.Min":               math.Min,
+	"math.IsNaN":             math.IsNaN,
+	"math.Pow":               math.Pow,
+	"math.Sqrt":              math.Sqrt,
+	"strconv.FormatUint":     strconv.FormatUint,
+	"math.Abs":               math.Abs,
+	"math.Floor":             math.Floor,
+	"path/filepath.Ext":      filepath.Ext,
+	"path/filepath.Base":     filepath.Base,
+	"unicode.IsPrint":        unicode.IsPrint,
+	"unicode.IsSpace":        unicode.IsSpace,
+	"unicode.IsUpper":        unicode.IsUpper,
+	"unicode.IsLetter":       unicode.IsLetter,
+	"unicode.IsDigit":        unicode.IsDigit,
+	"unicode.ToUpper":        unicode.ToUpper,
+	"unicode.ToLower":        unicode.ToLower,
 }
 
 func (ex *Exec) tryNativeCall(name string, fn *ssa.Function, args []Val) (Val, bool) {
 	nf, ok := nativeFns[name]
-	if !ok {
+	if !ok || nf == nil {
 		return nil, false
 	}
 	rf := reflect.ValueOf(nf)
@@ -1566,6 +1680,15 @@ func (ex *Exec) tryNativeCall(name string, fn *ssa.Function, args []Val) (Val, b
 			return cint(v.Int(), 32, true)
 		case reflect.Float64:
 			return Float{V: v.Float(), W: 64}
+		case reflect.Int64:
+			return cint(v.Int(), 64, true)
+		case reflect.Interface:
+			if v.IsNil() {
+				return nil
+			}
+			if e, ok := v.Interface().(error); ok {
+				return ex.newError(cstr(e.Error()))
+			}
 		case reflect.Slice:
 			var vs []Val
 			for i := 0; i < v.Len(); i++ {
